@@ -11,6 +11,7 @@ COMMON_TRUSTED = [
 
 # (file under coq/Gen, acra-vh arguments that print it): regenerated from /repo on every run
 GENERATORS = [
+    ("SqlKeywords.v", ["sqlkeywords"]),
     ("X18Consts.v", ["x18consts"]),
     ("WireMysqlConsts.v", ["wiremyconsts"]),
     ("CensorKinds.v", ["censorkinds"]),
@@ -275,7 +276,8 @@ PROPS = {
             "C14_envelope",
             "C14_wire",
             "C14_tokens",
-            "C14_wire_mysql"
+            "C14_wire_mysql",
+            "C14_tokenizer"
         ],
         "domains": [
             {
@@ -300,6 +302,13 @@ PROPS = {
                 "model": True
             },
             {
+                "name": "c14tok",
+                "run_vo": "Model/RunSqlTokenizer.vo",
+                "n_quick": 250,
+                "n_thorough": 6000,
+                "model": True
+            },
+            {
                 "name": "c14fuzz",
                 "run_vo": ".vo",
                 "n_quick": 250,
@@ -311,7 +320,8 @@ PROPS = {
             "Lib/GoSlice.v is the definition of Go's slice/index/make run-time checks used by the checked model (slices are modelled with cap = len, which can only add panics); tied to the real code by replaying every observed ok/err/PANIC outcome of the malformed stream on the checked model",
             "modelled, not verified: Themis itself (abstract record); processors/callbacks of the scanners are universally quantified functions that never panic",
             "Properties/C14_envelope.v holds the 55 envelope theorems of C14; Properties/C14.v re-exports it with the headline conjunction",
-            "MySQL (Model/MysqlWireExt.v, Properties/C12_mysql.v, domain c12my): packet framing, classification, binary rows, column definition packets and the COM_STMT_EXECUTE parameter block are CHECKED models replayed through the add-only hook decryptor/mysql/export_verif_x12my.go; MaxPayloadLen is a parameter of the model (theorems for every value; the multi-packet branch of ReadPacket/Dump is tied to the real code only by the 16 MiB implementation oracle of the thorough tier, such literals cannot be replayed in Coq); the subscribers of a row (onColumnDecryption) and GetType/GetData/Encode of a bound value are arbitrary functions in the theorems and scripted in the replay (their own behaviour: C19 / Model/TypedMysql.v); the decimal text form of numeric parameters (strconv) is not modelled; Handler.handleStatementExecute and the capability accessors of the first packets are run on truncated packets by the implementation oracle only (hooks VerifX12HandleStatementExecute / VerifX12Capabilities), not modelled; Gen/WireMysqlConsts.v: type tables probed from extractData for all 256 type bytes and read from base.NumericTypesStorageBytes"
+            "MySQL (Model/MysqlWireExt.v, Properties/C12_mysql.v, domain c12my): packet framing, classification, binary rows, column definition packets and the COM_STMT_EXECUTE parameter block are CHECKED models replayed through the add-only hook decryptor/mysql/export_verif_x12my.go; MaxPayloadLen is a parameter of the model (theorems for every value; the multi-packet branch of ReadPacket/Dump is tied to the real code only by the 16 MiB implementation oracle of the thorough tier, such literals cannot be replayed in Coq); the subscribers of a row (onColumnDecryption) and GetType/GetData/Encode of a bound value are arbitrary functions in the theorems and scripted in the replay (their own behaviour: C19 / Model/TypedMysql.v); the decimal text form of numeric parameters (strconv) is not modelled; Handler.handleStatementExecute and the capability accessors of the first packets are run on truncated packets by the implementation oracle only (hooks VerifX12HandleStatementExecute / VerifX12Capabilities), not modelled; Gen/WireMysqlConsts.v: type tables probed from extractData for all 256 type bytes and read from base.NumericTypesStorageBytes",
+            "SQL tokenizer (Model/SqlTokenizer.v, Properties/C14_tokenizer.v, domain c14tok): string tokenizers only (InStream == nil, the constructors every acra entry point uses; the io.Reader refill branch of next() is not modelled); Go's utf8.DecodeRune(Last)InString and strings.IndexFunc/TrimFunc (used by ExtractMysqlComment) are re-stated in the model and tied by replay only, unicode.IsDigit/IsSpace are probed on every code point into Gen/SqlKeywords.v; bytes.ToLower is modelled as ASCII lower-casing (identifier bytes are ASCII); fmt's %d as decimal digits; the token stream of short boundary inputs is compared by record count + folded FNV-1a digest of the records (TokBatch), scripted ops byte by byte; stack use of the real tokenizer is an implementation oracle (runtime.MemStats.StackInuse around 150 000 version comments)"
         ],
         "assumptions": [
             "go_len s (len s <= 2^47, True of every Go byte slice) where the code converts len to uint64 or adds to it in int64",
